@@ -11,6 +11,8 @@ package vsched
 import (
 	"context"
 	"fmt"
+	"net"
+	"os"
 	"runtime"
 	"runtime/debug"
 	"strings"
@@ -82,6 +84,19 @@ var ListenHook func(network, address string) (interface{}, error)
 // ActivationHook, when set and returning non-nil, is what the instrumented package's activationListener() returns:
 // the process was started by socket activation and inherited this (controlled) listener.
 var ActivationHook func() interface{}
+
+// UnixListener stands for *net.UnixListener in the instrumented code: vinstr rewrites that type in assertions,
+// type switches and declarations to this interface, which the real type satisfies and which the controlled
+// listener handed out for a unix path address satisfies too - so that what the library does to the listener
+// through the concrete type (SetUnlinkOnClose) is an event of the race monitor instead of a failed assertion.
+type UnixListener interface {
+	Accept() (net.Conn, error)
+	Close() error
+	Addr() net.Addr
+	SetDeadline(time.Time) error
+	SetUnlinkOnClose(bool)
+	File() (*os.File, error)
+}
 
 // X is the execution in progress (nil outside of executions).
 var X *Exec
